@@ -5,7 +5,7 @@ from corecheck import run_core
 def run(ctx):
     # exhaustive input enumeration of the rule set (MC_props.tla): every list of <= 3 (thorough: 4) proposals
     r = vlib.tlc("MC_props", cfg="MC_props" if ctx["tier"] == "quick" else "MC_props_deep", workers=1, timeout=3000, name="mc_props", xmx="8g")
-    res = run_core(ctx, "C10", driver={}, sim_cfgs=["SIM_props", "SIM_caps"], mc_quick="MC_core_quick", mc_thorough="MC_core_mid",
+    res = run_core(ctx, "C10", driver={}, sim_cfgs=["SIM_props", "SIM_caps"], mc_quick="MC_core_quick", mc_thorough=["MC_core_mid", "MC_caps"],
                    need_stats=("Commit:ok", "Commit:err:rule", "DeliverCommit:ok", "DeliverCommit:err:rule", "commit_recipient_checks"),
                    invariants_note="MC_props.tla: Theorems (SendImpliesRecv, Legal, by-value offender fails the build, by-reference offender is dropped) over every proposal list of length <= 3/4 from a 13-kind universe x by-value/by-reference x 3 committers on a tree with a blank leaf and an unmerged leaf; MlsGroup.tla: SendImpliesRecv, CommittedListsLegal on every reachable state; concrete: build result, applied list, unused proposals, path flag, every receiver's outcome and resulting tree compared with the model for behaviours rich in add/update/remove/PSK/resumption-PSK/GCE/re-init proposals, expired and identity-rejected key packages, conflicts on one leaf",
                    extra_rule="Input enumeration: " + ("%d" % 0))
